@@ -59,6 +59,11 @@ def gen_beh(rng, typ, feats) -> Dict[str, Any]:
                 b["future_pers"] = True
         if rng.random() < 0.15:
             b["explicit_time"] = True
+    if feats.get("pers_offset") and typ != "event-based" and not b.get("future") and rng.random() < 0.5:
+        # every reply of this simulator is dated a constant number of time units after its step
+        # (persistent values included; output times stay monotone, so "most recent value whose
+        # output time is due" remains unambiguous - unlike arbitrary future times, carve-out 3)
+        b["pers_offset"] = rng.choice([1, 1, 2])
     if feats["react"] and rng.random() < 0.5:
         b["react"] = True
     return b
@@ -99,6 +104,7 @@ def swarm_features(rng, force=None) -> Dict[str, bool]:
         "any_inputs": rng.random() < 0.25,
         "future_pers": False,     # carve-out 3 (persistent attributes with a future time): only when forced
         "late_start": rng.random() < 0.25,   # time-based/hybrid simulators whose first step is at t>0
+        "pers_offset": rng.random() < 0.12,  # replies dated a constant offset after the step
     }
     if force:
         f.update(force)
